@@ -94,6 +94,7 @@ def check(ctx):
         ctx.broken("correspondence:jachess", {"case": meta[i], "coq": cases[i][:1500]})
     oracle(ctx)
     failed_trial_probe(ctx)
+    additive_object_parameter_probe(ctx)
 
 
 def oracle(ctx):
@@ -367,6 +368,45 @@ def failed_trial_probe(ctx):
                 if not torch.allclose(got[k_], want[k_], rtol=1e-8, atol=1e-10):
                     ctx.fail("oracle", "%s:failed-trial-evaluation:%s" % (name, k_), info, got[k_], want[k_])
                     break
+
+
+def additive_object_parameter_probe(ctx):
+    """a module-held parameter that enters the function only ADDITIVELY: the Jacobian / Hessian do not depend on it, and the
+    derivative of every product (mv, mm, fullmatrix, rmv) w.r.t. it is the zero tensor - as it is for an explicit argument -
+    not an error (round-4 seed C17/12: the forward products lost their connection to the object's parameters)"""
+    import xitorch as xt
+    from xitorch.grad import jac, hess
+
+    class Mod(xt.EditableModule):
+        def __init__(self, a, c):
+            self.a, self.c = a, c
+
+        def f(self, x):
+            return self.a * x ** 3 + torch.sin(x) + self.c
+
+        def e(self, x):
+            return (self.a * x ** 4).sum() + (self.c * x).sum() * 0.0 + self.c.sum()
+
+        def getparamnames(self, methodname, prefix=""):
+            return [prefix + "a", prefix + "c"]
+    x = torch.tensor([0.3, -0.7, 1.1], dtype=DT, requires_grad=True)
+    w = torch.tensor([1.0, -2.0, 0.5], dtype=DT)
+    for name, mk in (("jac", lambda m: jac(m.f, (x,), idxs=0)), ("hess", lambda m: hess(m.e, (x,), idxs=0))):
+        for prod in ("mv", "rmv", "fullmatrix", "mm"):
+            a = torch.tensor([0.7, 1.3, 0.4], dtype=DT, requires_grad=True)
+            c = torch.tensor([0.2, -0.1, 0.5], dtype=DT, requires_grad=True)
+            op = mk(Mod(a, c))
+            try:
+                out = {"mv": lambda: op.mv(w), "rmv": lambda: op.rmv(w), "fullmatrix": lambda: op.fullmatrix(), "mm": lambda: op.mm(torch.stack([w, 2 * w], dim=-1))}[prod]()
+                ga, gc_ = torch.autograd.grad(out.sum(), (a, c), allow_unused=True)
+            except Exception as e:
+                ctx.fail("oracle", "%s:additive-object-parameter:%s:exception" % (name, prod), {"operator": name, "product": prod}, repr(e)[:200],
+                         "zero (or absent) derivative w.r.t. the additive parameter, the true one w.r.t. the other")
+                continue
+            ctx.count(("additive-object-parameter", name, prod), nontrivial=True)
+            if ga is None or float(ga.abs().max()) == 0.0 or (gc_ is not None and float(gc_.abs().max()) != 0.0):
+                ctx.fail("oracle", "%s:additive-object-parameter:%s" % (name, prod), {"operator": name, "product": prod},
+                         {"d/da": None if ga is None else ga.tolist(), "d/dc": None if gc_ is None else gc_.tolist()}, "d/da non-zero, d/dc zero or absent")
 
 
 def search(ctx):
